@@ -59,6 +59,7 @@ def do_est(c):
     out = estimate_directional_distribution(b[0], b[1], b[2], b[3], dirs, c["method"], **kw_of(c))
     if lay:
         # same values, another memory layout / split of the leading dimensions: back to the logical shape
+        out = estlayout.unslab(out, lay)
         out = np.asarray(out).reshape(shape + (out.shape[-1],))
     res = {"shape": list(out.shape), "out": hl(out)}
     if c.get("f32"):
